@@ -2,9 +2,11 @@
 //! vcheck-bin <ID> --replay <file>           strict replay of one case file
 //! (internal) --child                        run inside a supervised child process
 
+mod gen_stmt;
 mod props;
 mod run;
 mod sql;
+mod stmt;
 mod tape;
 
 use std::path::PathBuf;
@@ -67,6 +69,7 @@ fn main() {
     }
     let code = match args[0].as_str() {
         "C13" => dispatch(props::c13::C13, &args),
+        "C20" => dispatch(props::c20::C20, &args),
         other => {
             eprintln!("unknown property '{}'", other);
             2
